@@ -16,6 +16,8 @@ ASSUMPTIONS = [
     "the same is done, in every state including the complete one, for every operation that is not ready (already scheduled - also the last one "
     "of a finished job - or too early), with and without an explicit machine",
     "'second' sub-spaces run the history on a dispatcher that already played an episode of every length and was reset()",
+    "'bystander' sub-spaces keep a second dispatcher on the same instance object (one step ahead, own history, queried) and a dispatcher on "
+    "another instance with the same name alive and moving between the dispatches (common.Bystander)",
 ]
 STUBS = ["max", "min", "int (dispatcher module only)"]
 BUDGET = {"quick": 420, "thorough": 2400}
@@ -49,6 +51,8 @@ def subspaces(tier):
     out += C.structure_subspaces(D.shapes(2, 2), 2, True, only_flexible=True, filter="none", second=True)
     for f in ("none", "default_pair"):
         out += C.wide_subspaces(filter=f)
+        out += C.structure_subspaces(s3 + [(2, 2)], 2, False, canonical=True, filter=f, bystander=True)
+    out += C.structure_subspaces(D.shapes(2, 2), 2, True, only_flexible=True, filter="default_pair", bystander=True)
     if tier == "thorough":
         s4only = [s for s in s4 if sum(s) == 4]
         for f in filters:
@@ -121,7 +125,10 @@ def harness(eng, sp):
             s0.apply(op, m)
         disp.reset()
     spec = Spec(desc)
+    by = C.Bystander(inst) if sp.get("bystander") else None
     for k in range(desc.n_ops):
+        if by:
+            by.step()
         if sp.get("filter", "none") != "none":
             try:
                 disp.available_operations()
